@@ -621,7 +621,7 @@ Qed.
 (* ---------------- the sequential function is one schedule of the LTS ---------------- *)
 
 Definition lts_of (st : state) (iss : list cert) (now : Z) : lts :=
-  mkLts (st_cache st) iss now [idle_thread].
+  mkLts (st_cache st) iss now [idle_thread] [].
 
 Lemma seq_is_a_schedule : forall cfg st iss now a sni t t1 t2 r st',
   length iss = st_next st -> (now <= t)%Z -> (t <= t1)%Z -> (t1 <= t2)%Z ->
